@@ -68,7 +68,7 @@ def exc_matches(exc, caught):
 # ---------------------------------------------------------------- helpers
 def cell(eng, v):
     """Dereference heap cell for map/bimap/list refs."""
-    if isinstance(v, Ref) and v.ty.kind in ("map", "bimap", "list", "set"):
+    if isinstance(v, Ref) and v.ty.kind in ("map", "bimap", "list", "setcell"):
         return eng.heap()[v.rid]
     return v
 
@@ -698,7 +698,7 @@ def getattr_(eng, base, attr, node):
             raise Unsupported("attribute %s on object %s (not a declared field, constant or method)" % (attr, obj.cls))
         if k == "bimap" and attr == "inv":
             return InvView(base)
-        if k in ("map", "bimap", "list", "set"):
+        if k in ("map", "bimap", "list", "setcell"):
             return Fun("cellmeth", recv=base, name=attr)
     if isinstance(base, InvView):
         return Fun("cellmeth", recv=base, name=attr)
@@ -982,9 +982,16 @@ def bi_zip(eng, args, kw, n):
 def bi_list(eng, args, kw, n):
     if not args:
         return make_list(eng, [])
-    c = cell(eng, args[0])
+    a0 = args[0]
+    if isinstance(a0, OptV):
+        if not eng.spec_mode:
+            eng.safety("list-of-None", a0.some, n)
+        a0 = a0.val
+    c = cell(eng, a0)
+    if isinstance(c, P) and c.ty.kind == "seq":
+        return alloc(eng, Ty("list", c.ty.args[0]), P(c.ty, c.term), "cell.copy")   # a fresh list with the same items
     if isinstance(c, P):
-        return c  # list(seq) keeps value semantics
+        return c
     return make_list(eng, iter_concrete(eng, args[0]))
 
 
@@ -1218,8 +1225,7 @@ def conc_method(eng, recv, name, args, kw, n):
     v = recv.v
     if all(isinstance(a, Conc) for a in args) and not kw and isinstance(v, (str, tuple, frozenset, dict, list)):
         if name in ("append", "extend", "insert", "update", "add", "pop", "remove", "clear", "sort"):
-            eng.st.globals_written.append((name, ast.unparse(n)[:80]))
-            raise Unsupported("mutation of a constant/global container: %s" % ast.unparse(n)[:80])
+            return eng.reg.global_mutation(eng, recv, name, args, n)
         return Conc(getattr(v, name)(*[a.v for a in args]))
     if name in ("append", "extend", "insert", "update", "add", "pop", "remove", "clear", "sort"):
         return eng.reg.global_mutation(eng, recv, name, args, n)
